@@ -71,10 +71,13 @@ class _Subst(ast.NodeTransformer):
         self.env = env
         self.deep = deep
         self.force = force
+        self.identity = env.get("<identity>", ()) if isinstance(env, dict) else ()
 
     def visit_Name(self, node):
         if isinstance(node.ctx, ast.Load) and node.id in self.env:
             v = self.env[node.id]
+            if not self.force and node.id in self.identity and not self.deep:
+                return node  # an object mutated in place keeps its identity
             if not self.force and is_mutable_display(v) and not (self.deep and ("<mut:" + node.id + ">") not in self.env):
                 return node  # keep the identity of a locally built container
             return copy.deepcopy(v)
@@ -109,6 +112,30 @@ class _Subst(ast.NodeTransformer):
         self.generic_visit(node)
         self.env = saved
         return node
+
+
+MUTATORS = {"append", "extend", "insert", "add", "update", "setdefault", "pop", "remove", "clear", "sort", "reverse", "discard"}
+
+
+def identity_names(fn: ast.AST) -> frozenset:
+    """local names of objects that are mutated in place (method mutators, attribute or
+    item stores): substituting them by their constructor expression would lose identity"""
+    out = set()
+
+    def root(e):
+        while isinstance(e, (ast.Attribute, ast.Subscript)):
+            e = e.value
+        return e.id if isinstance(e, ast.Name) else None
+    for n in ast.walk(fn):
+        if isinstance(n, ast.Call) and isinstance(n.func, ast.Attribute) and n.func.attr in MUTATORS:
+            r = root(n.func.value)
+            if r:
+                out.add(r)
+        elif isinstance(n, (ast.Attribute, ast.Subscript)) and isinstance(n.ctx, (ast.Store, ast.Del)):
+            r = root(n.value)
+            if r:
+                out.add(r)
+    return frozenset(out)
 
 
 def is_mutable_display(v: ast.AST) -> bool:
@@ -212,6 +239,7 @@ class Interp:
     # ------------------------------------------------------------ statements
     def run(self) -> List[Outcome]:
         st = State(dict(self.init_env))
+        st.env["<identity>"] = identity_names(self.fi.node)
         flows = self.block(self.fi.node.body, [st])
         out: List[Outcome] = []
         for f in flows:
@@ -289,11 +317,14 @@ class Interp:
             r = self._record_effects(st.value, state)
             if r:
                 return [r]
-            # in-place mutation of a tracked alias: x.update(..) / x[...] = handled in _bind; drop alias knowledge
-            if isinstance(v, ast.Call) and isinstance(v.func, ast.Attribute) and isinstance(v.func.value, ast.Name) \
-                    and v.func.attr in ("update", "append", "extend", "pop", "clear", "setdefault", "insert", "remove", "sort", "reverse", "add", "discard"):
-                name = v.func.value.id
-                self._mutated(name, subst(v, {k: x for k, x in state.env.items() if k != name}), state)
+            # in-place mutation of a tracked object: x.update(..) / x.keywords.extend(..)
+            if isinstance(v, ast.Call) and isinstance(v.func, ast.Attribute) and v.func.attr in MUTATORS:
+                root = v.func.value
+                while isinstance(root, (ast.Attribute, ast.Subscript)):
+                    root = root.value
+                if isinstance(root, ast.Name) and root.id not in ("self", "cls"):
+                    name = root.id
+                    self._mutated(name, subst(v, {k: x for k, x in state.env.items() if k != name}), state)
             return [Flow("next", state)]
         if isinstance(st, ast.Return):
             if st.value is not None:
@@ -434,7 +465,7 @@ class Interp:
             root = base
             while isinstance(root, (ast.Subscript, ast.Attribute)):
                 root = root.value
-            if isinstance(root, ast.Name):
+            if isinstance(root, ast.Name) and root.id not in ("self", "cls"):
                 self._mutated(root.id, store, state)
         elif isinstance(target, ast.Attribute):
             store = ast.Call(func=ast.Name(id="<setattr>", ctx=ast.Load()),
@@ -451,7 +482,7 @@ class Interp:
         elts.append(how)
         state.env["<mut:" + name + ">"] = ast.List(elts=elts, ctx=ast.Load())
         for var, expr in list(state.env.items()):
-            if var == name or var.startswith("<"):
+            if var == name or var.startswith("<") or not isinstance(expr, ast.AST):
                 continue
             if _mentions(expr, name):
                 wrapped = ast.Call(func=ast.Name(id="<pre>", ctx=ast.Load()),
